@@ -168,8 +168,13 @@ def tag_protocol(ctx):
     for n in ast.walk(f.node):
         if isinstance(n, ast.If) and isinstance(n.test, ast.Compare) and \
                 isinstance(n.test.ops[0], ast.Eq) and \
-                isinstance(n.test.comparators[0], ast.Name):
-            sent = 'sentinel:' + n.test.comparators[0].id
+                len(n.test.ops) == 1:
+            sides = [x.id for x in (n.test.left, n.test.comparators[0])
+                     if isinstance(x, ast.Name) and
+                     'sentinel:' + x.id in (s1, s2)]
+            if len(sides) != 1:
+                continue
+            sent = 'sentinel:' + sides[0]
             if any(isinstance(x, ast.BinOp) and isinstance(x.op, ast.Mod)
                    for s_ in n.body for x in ast.walk(s_)):
                 pad_on = sent
